@@ -134,6 +134,7 @@ def builtin (name : String) (args : List Val) : Option Val :=
   | "len", [.list l] => some (.int l.length)
   | "append", [.list l, v] => some (.list (l ++ [v]))
   | "mklist", vs => some (.list vs)
+  | "mkobj", [] => some (.obj [])
   | "slice", [.list l, .int lo, .nil] => if lo < 0 ∨ lo.toNat > l.length then none else some (.list (l.drop lo.toNat))
   | "slice", [.list l, .int lo, .int hi] =>
     if lo < 0 ∨ hi < lo ∨ hi.toNat > l.length then none else some (.list ((l.take hi.toNat).drop lo.toNat))
